@@ -70,6 +70,11 @@ def probes(rnd):
         ("async-cte", "WITH c AS (SELECT ASYNC.VF_SLOW('t', a) AS v FROM t) SELECT v FROM c"),
         ("async-subq", "SELECT a, (SELECT ASYNC.VF_SLOW('t', x) AS v FROM items) AS s FROM t"),
         ("async-derived-join", "SELECT * FROM (SELECT ASYNC.VF_SLOW('t', a) AS v, a FROM t) x JOIN t y ON x.a = y.a"),
+        ("async-derived-join-both", "SELECT * FROM (SELECT ASYNC.VF_SLOW('t', a) AS v, a FROM t) x JOIN "
+                                    "(SELECT ASYNC.VF_SLOW('u', a) AS w, ASYNC.VF_SLOW('z', s) AS z, a FROM t) y ON x.a = y.a"),
+        ("async-derived-join-right", "SELECT * FROM t x LEFT JOIN (SELECT ASYNC.VF_SLOW('u', a) AS w, a FROM t) y ON x.a = y.a"),
+        ("async-derived-join-star-subq", "SELECT * FROM (SELECT *, (SELECT * FROM dual) AS d FROM t) x JOIN "
+                                         "(SELECT a, (SELECT * FROM dual) AS d, ASYNC.VF_SLOW('u', a) AS w FROM t) y ON x.a = y.a"),
         ("async-nested-from", "SELECT ASYNC.VF_SLOW('t', k) AS v FROM grid"),
         ("subq-nested-from", "SELECT k, (SELECT v FROM `<-meta`) AS s FROM grid"),
         ("cte-name-as-column", "WITH c AS (SELECT a FROM t) SELECT c FROM dual"),
@@ -95,7 +100,8 @@ def probes(rnd):
     ]
     out = []
     for tag, sql in forms:
-        out.append({"doc": doc, "sql": sql, "tag": "probe:" + tag, "seq": tag not in ("group-star", "count", "join-star-subq", "async-derived-join"),
+        out.append({"doc": doc, "sql": sql, "tag": "probe:" + tag, "seq": tag not in ("group-star", "count", "join-star-subq", "async-derived-join", "async-derived-join-both",
+                                                                "async-derived-join-right", "async-derived-join-star-subq"),
                     "wrapped": False, "pg": False, "arr": False, "consts": None, "mode": "seq", "q": None})
     return out
 
